@@ -311,12 +311,23 @@ def make_subset_data(data, pixels=None, return_selection=False, seed=None):
         return data
     if seed is not None:
         np.random.seed(seed)
-    tot_pix = len(data.x) * len(data.y)
+    flat_data = flat(data)
+    point_or_flat = 'point' if 'point' in flat_data.dims else 'flat'
+    # (every location of the data: all z planes of a volume, and no more
+    # than there are for data that are a list of points already)
+    tot_pix = len(flat_data[point_or_flat])
     selection = np.random.choice(tot_pix, pixels, replace=False)
-    subset = flat(data).isel(flat=selection)
-    subset = copy_metadata(data, subset, do_coords=False)
-
-    subset.attrs['original_dims'] = {key: data[key].values for key in data.dims}
+    subset = flat_data.isel({point_or_flat: selection})
+    if flat_data is data:
+        # already a list of locations (a subset, detector points): keep
+        # its metadata, and the axes of the image it once was
+        subset = subset.copy()
+        subset.attrs = dict(data.attrs)
+        subset.name = data.name
+    else:
+        subset = copy_metadata(data, subset, do_coords=False)
+        subset.attrs['original_dims'] = {
+            key: data[key].values for key in data.dims}
 
     if return_selection:
         return subset, selection
